@@ -14,7 +14,8 @@ the allocator:
 
 * the function is *unrolled* (a `riscv_scf.for` for K = 0, 1, 2 iterations, following the register level meaning
   of the loop: `mv iv, lb`; compare with ub; body; `add iv, iv, step`; compare with ub) into a straight trace of
-  reads and writes of *dynamic value instances*; every instance carries the symbolic term of plain SSA evaluation;
+  reads and writes of *dynamic value instances*; every instance carries the symbolic term of plain SSA evaluation
+  (a loop with compile-time constant bounds, or lb = ub, is only run for its real trip count);
 * (3) symbolic register machine: a register file maps a register name to the term last written into it; every
   operand read must find the SSA term of the value read (otherwise a live value was clobbered); `zero` reads as
   the constant 0 and ignores writes; two-address x86 instructions write the register of their tied *operand*;
@@ -408,6 +409,7 @@ def _facts(struct):
     defop: dict = {}
     role: dict = {}
     dup = [False]
+    exotic = [False]
 
     def walk(blk, inbody):
         bargs, ops = blk
@@ -431,16 +433,19 @@ def _facts(struct):
                 for r in results:
                     role[r] = "for.result"
                 yops = body[1][-1][2]
+                inbody_results = {r for o in body[1] for r in o[3]}
                 for y, c, i0 in zip(yops, body[0][1:], inits):
                     if y == c or y == i0:
                         dup[0] = True
+                    if y != c and y not in inbody_results:
+                        exotic[0] = True        # yields a value from outside the body or the induction variable
             if body is not None:
                 walk(body, True)
 
     for a in struct[0]:
         defop[a] = "arg"
     walk(struct, False)
-    return uses, defop, role, dup[0]
+    return uses, defop, role, dup[0], exotic[0]
 
 
 def judge(target, strategy, s_before, regs_before, s_after, regs_after, allowed, infinite, reserved, zero):
@@ -451,7 +456,7 @@ def judge(target, strategy, s_before, regs_before, s_after, regs_after, allowed,
     pre = [r is not None for r in regs_before]
     if not same:
         pre = [False] * len(regs_after)
-    uses, defop, role, _ = _facts(s_after)
+    uses, defop, role, _, exotic = _facts(s_after)
     has_for = _has_for(s_after)
     Ks = (0, 1, 2) if has_for else (0,)
     pre_regs = {r for r in regs_before if r not in (None, "?")}
@@ -461,8 +466,10 @@ def judge(target, strategy, s_before, regs_before, s_after, regs_after, allowed,
         for vid, r in enumerate(regs_before):
             if r not in (None, "?"):
                 holders.setdefault(r, []).append(vid)
+    # ... or to unused function arguments: values no operation with register effects ever touches
     dead_get = {r for r, hs in holders.items()
-                if all(defop.get(h, "").endswith("get_register") and not uses.get(h) for h in hs)}
+                if all(not uses.get(h) and (defop.get(h, "").endswith("get_register") or defop.get(h) == "arg")
+                       for h in hs) and any(defop.get(h, "").endswith("get_register") for h in hs)}
 
     def cause(reg, loopclass):
         if reg in dead_get:
@@ -470,7 +477,7 @@ def judge(target, strategy, s_before, regs_before, s_after, regs_after, allowed,
         if reg in pre_regs:
             return "preallocated-register-reused"
         if has_for:
-            return "loop|" + loopclass
+            return "loop|" + ("yielded-value-not-defined-in-body" if exotic else loopclass)
         return None
 
     # ---- (2) registers handed out
@@ -1261,7 +1268,9 @@ def run(ctx):
         "a value of type !riscv.reg<r> / !x86.reg64<r> lives in register r; a two-address x86 instruction writes the "
         "register of its tied operand (what the assembly printer emits)",
         "riscv_scf.for at register level = mv iv,lb; bge iv,ub; body; add iv,iv,step; blt iv,ub (the lowering in "
-        "convert_riscv_scf_to_riscv_cf); unrolling 0,1,2 iterations exposes every clobber",
+        "convert_riscv_scf_to_riscv_cf); unrolling 0,1,2 iterations exposes every clobber; a loop whose bounds are "
+        "compile-time constants (or the same value) is executed only for its real trip count, any other loop is "
+        "assumed able to run 0, 1 or 2+ times (the usual all-paths-feasible reading of liveness)",
         "raising DiagnosticException (OutOfRegisters included) is the documented way to report failure",
         "x86: the use of a value as two-address operand must be its last use (documented on HasRegisterConstraints); "
         "programs violating it are legalized with x86-regalloc-legalize first",
